@@ -43,6 +43,19 @@ class _dumpable_iterator(Generic[T], list):
         raise NotImplementedError("Can't get the length of a _dumpable_iterator")
 
 
+#: The number of decimal places kept for exported coordinates.
+#: The geojson library rounds coordinates to six decimal places by default,
+#: which moves the vertices of the exported cells.
+#: Seventeen decimal places is enough to leave any double precision value unchanged.
+GEOJSON_PRECISION = 17
+
+
+def _to_geojson_polygon(polygon: shapely.Polygon) -> geojson.Polygon:
+    """Convert a shapely Polygon to a geojson Polygon without rounding its coordinates."""
+    coordinates = polygon.__geo_interface__['coordinates']
+    return geojson.Polygon(coordinates, precision=GEOJSON_PRECISION)
+
+
 def to_geojson(
     dataset: xarray.Dataset,
 ) -> geojson.FeatureCollection:
@@ -72,7 +85,7 @@ def to_geojson(
     :func:`.write_geojson`
     """
     return geojson.FeatureCollection(_dumpable_iterator(
-        geojson.Feature(geometry=polygon, properties={
+        geojson.Feature(geometry=_to_geojson_polygon(polygon), properties={
             'linear_index': i,
             'index': dataset.ems.wind_index(i),
         })
@@ -206,7 +219,9 @@ def write_wkt(
         The path where the geometry should be written to.
     """
     with open(path, 'w') as f:
-        f.write(shapely.to_wkt(_to_multipolygon(dataset)))
+        # rounding_precision=-1 writes the coordinates in full,
+        # the default rounds them to six decimal places.
+        f.write(shapely.to_wkt(_to_multipolygon(dataset), rounding_precision=-1))
 
 
 def write_wkb(
